@@ -130,7 +130,7 @@ func cacheGraphRun(c cgConfig, reqs []cgReq, mode string, fullDepth int, st *fw.
 	cfg := fmt.Sprintf("table [%s] notAllowed=%v fallback=%v strict=%v capacity=%d", defsString(defs), c.NotAllowed, c.Fallback, c.Strict, c.Cap)
 	// the non-caching twin is stateless: one expected observation per request
 	recT := &hitRec{}
-	twin, pv := buildRouter(defs, recT, cgOpts(c, false)...)
+	twin, pv := buildRouterFull(defs, nil, true, recT, cgOpts(c, false)...)
 	if pv != nil {
 		add("register:panic", fmt.Sprintf("%s: registration panicked: %v", cfg, pv))
 		return viols
@@ -145,7 +145,7 @@ func cacheGraphRun(c cgConfig, reqs []cgReq, mode string, fullDepth int, st *fw.
 	}
 	build := func(h []int) (*rux.Router, *hitRec) {
 		rec := &hitRec{}
-		r, pv := buildRouter(defs, rec, cgOpts(c, true)...)
+		r, pv := buildRouterFull(defs, nil, true, rec, cgOpts(c, true)...)
 		if pv != nil {
 			panic(pv)
 		}
